@@ -1,6 +1,9 @@
 package websocket
 
-import "errors"
+import (
+	"errors"
+	"io"
+)
 
 // First conn-level shakedown harness: one unfragmented message read through a real Conn.
 func verifSmoke_read() {
@@ -200,4 +203,72 @@ func verifC04_cut() {
 	}
 	c.CloseNow()
 	vObserve("cut", wire, cut, t.endMode, len(g.msgs), g.tail)
+}
+
+// C04.netconn: the same cut streams read through the net.Conn adapter: io.EOF (the adapter's clean end) is reported only
+// after a Close frame with status 1000/1001 was received completely, never because the transport ended; what Read
+// handed out is a prefix of the concatenated payloads, and everything completed before the cut is in it.
+func verifC04_netconn() {
+	client := vParam("client", 1) == 1
+	vInstallRand()
+	frames, msgs := vGenStream(client, vParam("msgs", 2), vParam("frags", 2), vParam("lens", 2), false)
+	for i := range frames {
+		if frames[i].opcode == 1 {
+			frames[i].opcode = 2 // the adapter is opened for binary messages
+		}
+	}
+	withClose := vChoose("close", 2) == 1
+	if withClose {
+		cl := vFrame{fin: true, opcode: 8, masked: !client, payload: []byte{0x03, 0xe8, 'o', 'k'}}
+		if cl.masked {
+			copy(cl.key[:], vBytes("key", 4))
+		}
+		frames = append(frames, cl)
+	}
+	var wire []byte
+	ends := make([]int, len(frames))
+	for i, f := range frames {
+		wire = append(wire, vEncodeFrame(f)...)
+		ends[i] = len(wire)
+	}
+	cut := vChoose("cut", len(wire)+1)
+	t := vNewTransport(wire[:cut])
+	t.endMode = vChoose("end", 3)
+	c := vNewConn(t, client, nil, 16, 64)
+	nc := NetConn(vBG, c, MessageBinary)
+	var got []byte
+	var rerr error
+	bufSize := 1 + vChoose("buf", 2)*3
+	for i := 0; i < 40; i++ {
+		p := make([]byte, bufSize)
+		n, err := nc.Read(p)
+		got = append(got, p[:n]...)
+		if err != nil {
+			rerr = err
+			break
+		}
+	}
+	vReach("C04.netconn.compared")
+	vClassify("end", vEndName(t.endMode))
+	vAssert(rerr != nil, "C04.netconn.ends")
+	var all, completed []byte
+	for _, m := range msgs {
+		all = append(all, m.payload...)
+		if ends[m.frames[len(m.frames)-1]] <= cut {
+			completed = append(completed, m.payload...)
+		}
+	}
+	closeComplete := withClose && cut == len(wire)
+	if closeComplete {
+		vReach("C04.netconn.clean-close")
+		vAssert(rerr == io.EOF, "C04.netconn.eof-after-normal-close")
+		vAssert(vEqBytes(got, all), "C04.netconn.everything-before-eof")
+	} else {
+		vReach("C04.netconn.truncated")
+		vAssert(rerr != io.EOF, "C04.netconn.eof-without-close")
+		vAssert(vIsPrefix(got, all), "C04.netconn.prefix")
+		vAssert(len(got) >= len(completed), "C04.netconn.completed-delivered")
+	}
+	c.CloseNow()
+	vObserve("c04netconn", wire[:cut], got, rerr == io.EOF)
 }
